@@ -59,30 +59,32 @@ def run(ctx):
     small = (max(2, ncpu // 5), max(2, ncpu // 4))
     setonly = ("Index",)
     maponly = ("Union", "Inter", "Diff")
+    # vlib names TLC's scratch directory after pid, a (not thread-safe) counter and the spec's file name: concurrent runs
+    # of one module are therefore started under two different spellings of it ("X" / "X.tla"), chains run one by one
     groups = [
         [("FiniteMap", "MC_FiniteMap_%s" % tier, "R/FiniteMap", maponly, ())],
-        [("FiniteMap", "MC_FiniteSet_%s" % tier, "R/FiniteSet", setonly, ()),
-         ("FiniteMap", "MC_FiniteMap_order", "R/FiniteMap-order", maponly + setonly, ()),
-         ("FiniteMap", "MC_FiniteSet_order", "R/FiniteSet-order", setonly, ())],
+        [("FiniteMap.tla", "MC_FiniteSet_%s" % tier, "R/FiniteSet", setonly, ()),
+         ("FiniteMap.tla", "MC_FiniteMap_order", "R/FiniteMap-order", maponly + setonly, ()),
+         ("FiniteMap.tla", "MC_FiniteSet_order", "R/FiniteSet-order", setonly, ())],
         [("HashChains", "MC_HashChains_%s" % tier, "R/HashChains", (), ()),
          ("HashChains", "MC_HashChainsSet_%s" % tier, "R/HashChains-set", ("Index",), ())],
     ]
     if not ctx.quick:
-        groups.append([("HashChains", "MC_HashChains2_thorough", "R/HashChains-nb2", (), ()),
-                       ("FiniteMap", "MC_FiniteMap_wide", "R/FiniteMap-wide", maponly, ())])
+        groups[2].append(("HashChains", "MC_HashChains2_thorough", "R/HashChains-nb2", (), ()))
+        groups[1].append(("FiniteMap.tla", "MC_FiniteMap_wide", "R/FiniteMap-wide", maponly, ()))
     shape = {"cases": 0, "differs": 0}
 
     def group(g):
         for spec, cfg, label, ignore, args in g:
             wk, jb = big if g is groups[0] else small
             m = _model_and_replay(ctx, rep, spec, cfg, label, wk, jb, ignore, args)
-            if spec == "HashChains":
+            if spec.startswith("HashChains"):
                 shape["cases"] += m["executed"] + m["skipped"].get("ShapeDiffers", 0)
                 shape["differs"] += m["skipped"].get("ShapeDiffers", 0)
 
     def expected():
         for cfg, invs, what in EXPECT:
-            r = vlib.tlc("HashChains", cfg, workers=2, timeout=600, xmx="2g")
+            r = vlib.tlc("HashChains.tla", cfg, workers=2, timeout=600, xmx="2g")
             v = r.violated()
             if v not in invs:
                 raise vlib.HarnessError("HashChains/%s: expected a counterexample (%s) for '%s', TLC said %s\n%s" %
